@@ -4,8 +4,37 @@ import numpy as np
 from . import harness as H, core, engine
 
 
+def program(c):
+    """a self-contained probe program: build it with the recorded compiler(s) against /repo/include and run it"""
+    import os, subprocess
+    work = H.scratch_dir()
+    inc = H.include_dir(work)
+    src = os.path.join(work, 'probe.cpp')
+    open(src, 'w').write(c['source'])
+    print('property   :', c.get('property'))
+    print('obligation :', c.get('obligation'))
+    print('statement  :', c.get('statement'))
+    bad = False
+    for n, b in enumerate(c.get('builds', [])):
+        exe = os.path.join(work, 'probe%d' % n)
+        cmd = [b['compiler']] + b['flags'] + ['-I', inc, src, '-o', exe]
+        rc, out, err = H.run_cmd(cmd)
+        print('build      :', ' '.join(cmd[:-4]), '-> rc', rc)
+        if rc != 0:
+            print(err[-600:])
+            continue
+        p = subprocess.run([exe], stdout=subprocess.PIPE, stderr=subprocess.STDOUT, timeout=120)
+        print('run        : exit status', p.returncode)
+        print(p.stdout.decode('utf-8', 'replace')[-600:])
+        bad = bad or p.returncode != 0
+    print('REPRODUCED' if bad else 'NOT REPRODUCED')
+    return 1 if bad else 0
+
+
 def main(path):
     c = json.load(open(path))
+    if c.get('kind') == 'program':
+        return program(c)
     if c.get('kind') == 'ground' or not c.get('wrappers'):
         print('property   :', c.get('property'))
         print('obligation :', c.get('obligation'))
